@@ -14,12 +14,18 @@ import (
 	"context"
 	"fmt"
 	"sort"
+	"strings"
 	"sync"
 	"sync/atomic"
 	"testing"
 	"time"
 
+	"github.com/stretchr/testify/mock"
+
+	"github.com/tochemey/goakt/v4/internal/cluster"
+	"github.com/tochemey/goakt/v4/internal/internalpb"
 	"github.com/tochemey/goakt/v4/log"
+	mockcluster "github.com/tochemey/goakt/v4/mocks/cluster"
 )
 
 type c11Inst struct {
@@ -43,13 +49,18 @@ type c11World struct {
 	pending sync.WaitGroup
 }
 
-func (w *c11World) preStart(i *c11Inst) {
+// a gated PreStart honours the context of the Spawn call it runs under (ctx.Err() when cancelled)
+func (w *c11World) preStart(ctx context.Context, i *c11Inst) error {
 	if i.gated {
 		select {
 		case i.began <- struct{}{}:
 		default:
 		}
-		<-i.gate
+		select {
+		case <-i.gate:
+		case <-ctx.Done():
+			return ctx.Err()
+		}
 	}
 	w.mu.Lock()
 	i.id.Store(int32(w.created[i.name]))
@@ -57,6 +68,7 @@ func (w *c11World) preStart(i *c11Inst) {
 	w.insts[i.name] = append(w.insts[i.name], i)
 	w.mu.Unlock()
 	i.alive.Store(true)
+	return nil
 }
 
 func (w *c11World) postStop(i *c11Inst) {
@@ -66,7 +78,7 @@ func (w *c11World) postStop(i *c11Inst) {
 
 type c11Actor struct{ inst *c11Inst }
 
-func (a *c11Actor) PreStart(*Context) error  { a.inst.w.preStart(a.inst); return nil }
+func (a *c11Actor) PreStart(c *Context) error { return a.inst.w.preStart(c.Context(), a.inst) }
 func (a *c11Actor) Receive(*ReceiveContext)  {}
 func (a *c11Actor) PostStop(*Context) error  { a.inst.w.postStop(a.inst); return nil }
 
@@ -94,6 +106,7 @@ type c11Scenario struct {
 	Kinds   []string  `json:"kinds"`
 	Actions [][]any   `json:"actions"`
 	Expect  [][][]int `json:"expect"`
+	Cluster bool      `json:"cluster"` // a registry (mock) is attached: publications can be made to fail
 }
 
 type c11Step struct {
@@ -135,6 +148,38 @@ func c11RunScenario(t *testing.T, idx int, sc c11Scenario) c11ScOut {
 		t.Fatal(err)
 	}
 	k := sc.K
+	var failMu sync.Mutex
+	failNext := map[string]bool{}
+	if sc.Cluster {
+		as := sys.(*actorSystem)
+		cm := mockcluster.NewCluster(t)
+		cm.EXPECT().ActorExists(mock.Anything, mock.Anything).Return(false, nil).Maybe()
+		cm.EXPECT().GetActor(mock.Anything, mock.Anything).Return(nil, cluster.ErrActorNotFound).Maybe()
+		cm.EXPECT().RemoveActor(mock.Anything, mock.Anything).Return(nil).Maybe()
+		cm.EXPECT().PutActor(mock.Anything, mock.Anything).RunAndReturn(func(_ context.Context, a *internalpb.Actor) error {
+			addr := a.GetAddress()
+			failMu.Lock()
+			defer failMu.Unlock()
+			for nm := range failNext {
+				if strings.HasSuffix(addr, "/"+nm) {
+					delete(failNext, nm)
+					return fmt.Errorf("verif: registry write of %s failed", nm)
+				}
+			}
+			return nil
+		}).Maybe()
+		as.locker.Lock()
+		as.cluster = cm
+		as.locker.Unlock()
+		as.clusterEnabled.Store(true)
+		defer func() {
+			as.clusterEnabled.Store(false)
+			as.locker.Lock()
+			as.cluster = nil
+			as.locker.Unlock()
+			_ = sys.Stop(ctx)
+		}()
+	}
 	w := &c11World{k: k, created: make([]int, k), insts: make([][]*c11Inst, k), bound: map[*PID]int{}, results: make([][]int, k)}
 	parents := make([]*PID, k)
 	ids := make([]string, k) // tree id of name n
@@ -155,13 +200,14 @@ func c11RunScenario(t *testing.T, idx int, sc c11Scenario) c11ScOut {
 	gatedInst := make([]*c11Inst, k) // the gated instance currently blocking name n's flight
 	callNo := 0
 	held := false
-	spawn := func(n int, inst *c11Inst, kind string) (*PID, error) {
+	gatedCancel := make([]context.CancelFunc, k)
+	spawn := func(ctx context.Context, n int, inst *c11Inst, kind string) (*PID, error) {
 		switch kind {
 		case "child":
 			return parents[n].SpawnChild(ctx, name(n), &c11Actor{inst: inst}, WithLongLived())
 		case "func":
 			return sys.SpawnNamedFromFunc(ctx, name(n), func(context.Context, any) error { return nil },
-				WithPreStart(func(context.Context) error { w.preStart(inst); return nil }),
+				WithPreStart(func(c context.Context) error { return w.preStart(c, inst) }),
 				WithPostStop(func(context.Context) error { w.postStop(inst); return nil }))
 		default:
 			return sys.Spawn(ctx, name(n), &c11Actor{inst: inst}, WithLongLived())
@@ -189,9 +235,9 @@ func c11RunScenario(t *testing.T, idx int, sc c11Scenario) c11ScOut {
 			sort.Ints(res)
 			out = append(out, []int{reg, alive}, res)
 		}
-		na := int(sys.NumActors()) - base
-		if na < 0 {
-			na = 0
+		na := int(int64(sys.NumActors())) - base
+		if na < 0 || na > 4999 {
+			na = 4999 // the counter went below zero (wrapped)
 		}
 		out = append(out, []int{na})
 		return out
@@ -211,10 +257,11 @@ func c11RunScenario(t *testing.T, idx int, sc c11Scenario) c11ScOut {
 				sk = []string{"spawn", "func"}[callNo%2]
 			}
 			callNo++
+			cctx, cancel := context.WithCancel(ctx)
 			w.pending.Add(1)
 			go func() {
 				defer w.pending.Done()
-				p, err := spawn(n, inst, sk)
+				p, err := spawn(cctx, n, inst, sk)
 				r := 0
 				if err == nil && p != nil {
 					r = w.instOf(n, p) + 1
@@ -229,9 +276,47 @@ func c11RunScenario(t *testing.T, idx int, sc c11Scenario) c11ScOut {
 				select {
 				case <-inst.began:
 					gatedInst[n] = inst
+					gatedCancel[n] = cancel
 				case <-time.After(300 * time.Millisecond):
 				}
 			}
+		case "cancel":
+			// the context of the call whose PreStart is blocked is cancelled
+			n := c11Int(act[1])
+			if gatedInst[n] == nil {
+				flag = 1
+			} else {
+				gatedCancel[n]()
+				gatedInst[n] = nil
+			}
+		case "call_deadline":
+			// a caller with a short deadline joins the blocked flight and gives up
+			n := c11Int(act[1])
+			if gatedInst[n] == nil {
+				flag = 1
+			} else {
+				inst := &c11Inst{name: n, gate: make(chan struct{}), began: make(chan struct{}, 1), w: w}
+				inst.id.Store(-1)
+				sk := sc.Kinds[n]
+				if sk == "mixed" {
+					sk = "spawn"
+				}
+				dctx, dcancel := context.WithTimeout(ctx, 40*time.Millisecond)
+				p, err := spawn(dctx, n, inst, sk)
+				dcancel()
+				r := 0
+				if err == nil && p != nil {
+					r = w.instOf(n, p) + 1
+				}
+				w.mu.Lock()
+				w.results[n] = append(w.results[n], r)
+				w.mu.Unlock()
+			}
+		case "set_fail":
+			n := c11Int(act[1])
+			failMu.Lock()
+			failNext[name(n)] = true
+			failMu.Unlock()
 		case "release_pre":
 			n := c11Int(act[1])
 			if gatedInst[n] == nil {
@@ -285,7 +370,9 @@ func c11RunScenario(t *testing.T, idx int, sc c11Scenario) c11ScOut {
 		c11ReleaseDeathWatch(sys)
 	}
 	w.pending.Wait()
-	_ = sys.Stop(ctx)
+	if !sc.Cluster {
+		_ = sys.Stop(ctx)
+	}
 	return out
 }
 
@@ -391,7 +478,7 @@ func TestVerifC11Stress(t *testing.T) {
 							p, err = parent.SpawnChild(ctx, nm, &c11Actor{inst: inst}, WithLongLived())
 						case "func":
 							p, err = sys.SpawnNamedFromFunc(ctx, nm, func(context.Context, any) error { return nil },
-								WithPreStart(func(context.Context) error { wd.preStart(inst); return nil }),
+								WithPreStart(func(c context.Context) error { return wd.preStart(c, inst) }),
 								WithPostStop(func(context.Context) error { wd.postStop(inst); return nil }))
 						default:
 							p, err = sys.Spawn(ctx, nm, &c11Actor{inst: inst}, WithLongLived())
